@@ -553,6 +553,82 @@ func closeVsKeepAlive(r *ev.Run, e *etcdx.Etcd, rng *rand.Rand) {
 	r.Distinct("close-vs-keepalive")
 }
 
+// resignHandOver: member A gives its leadership up while member B campaigns. The acknowledgement
+// of A's lease revocation is delayed at the etcd client boundary (an existing suspension point),
+// so "revoked in etcd, acknowledgement still in flight" lasts long enough to be observed: as soon
+// as B's campaign has succeeded, A must not report a valid leadership nor grant timestamps.
+func resignHandOver(r *ev.Run, e *etcdx.Etcd, rng *rand.Rand) {
+	rounds := r.Pick(12, 60)
+	for i := 0; i < rounds; i++ {
+		x, err := newRun(r, e, rng, fmt.Sprintf("/c03/r%02d_%04d_", r.Shard, i), 2)
+		if err != nil {
+			r.Inconclusive("world: %v", err)
+			return
+		}
+		a, b := x.w.Members[0], x.w.Members[1]
+		if err := a.Campaign(true); err != nil {
+			x.w.Close()
+			continue
+		}
+		a.Alloc.Initialize(0)
+		revoked := make(chan struct{}, 4)
+		a.Cl.After = func(rpc *etcdx.RPC) {
+			if rpc.Method == "LeaseRevoke" {
+				select {
+				case revoked <- struct{}{}:
+				default:
+				}
+				time.Sleep(40 * time.Millisecond)
+			}
+		}
+		how := []string{"ResetLeader", "DeleteLeaderKey", "Resign"}[i%3]
+		done := make(chan struct{})
+		go func() {
+			defer close(done)
+			switch how {
+			case "ResetLeader":
+				a.M.ResetLeader()
+			case "DeleteLeaderKey":
+				a.M.GetLeadership().DeleteLeaderKey()
+			default:
+				a.Resign()
+			}
+		}()
+		select {
+		case <-revoked:
+		case <-done:
+		case <-time.After(10 * time.Second):
+		}
+		// the record is gone in etcd now (or will be in a moment): B campaigns until it wins
+		won := false
+		for k := 0; k < 200 && !won; k++ {
+			if b.Campaign(false) == nil {
+				won = true
+			} else {
+				time.Sleep(time.Millisecond)
+			}
+		}
+		if won {
+			r.Count("resign_handover_rounds", 1)
+			aValid := a.M.GetLeadership().Check()
+			_, tsoErr := x.w.TSO(0, a, 1, 0)
+			if aValid || tsoErr == nil {
+				r.Violation("resigning-member-still-valid-after-successor-elected", fmt.Sprintf("after %s the leader record was revoked and member b won a campaign, yet member a still reported a valid leadership (Check=%v, timestamp granted=%v)", how, aValid, tsoErr == nil),
+					map[string]interface{}{"how": how, "round": i, "root": x.w.Root})
+				<-done
+				x.w.Close()
+				return
+			}
+		}
+		<-done
+		a.Cl.After = nil
+		b.Resign()
+		x.w.Close()
+		r.Eval(1)
+	}
+	r.Distinct("resign-hand-over")
+}
+
 func levelA(r *ev.Run, e *etcdx.Etcd, seed int64, wi int, out *sync.Mutex) {
 	rng := rand.New(rand.NewSource(seed))
 	x, err := newRun(r, e, rng, fmt.Sprintf("/c03/w%02d_%05d_", r.Shard, wi), 2+rng.Intn(3))
@@ -694,6 +770,9 @@ func main() {
 	rng := rand.New(rand.NewSource(r.ShardSeed()))
 	gatedPhase(r, e, rng)
 	closeVsKeepAlive(r, e, rng)
+	if r.Violations() == 0 {
+		resignHandOver(r, e, rng)
+	}
 	// worlds in parallel so that lease expiry waits overlap
 	nworlds := r.Pick(16, 64)
 	par := 8
